@@ -540,6 +540,11 @@ class Ref:
         if t == 20:
             if code == 0: self.peers[op[1]] = (min(op[2][0][0], 2), list(op[2][0][1])) if op[2] else None
             return None
+        if t in (21, 22) and op[2] == 0 and code == 0:
+            # a peer has only an export override: an import request that is accepted changes what the peer's
+            # export evaluation does although nobody asked for that
+            return 'per-peer %s for the IMPORT direction was accepted and applied to peer %d\'s export policy' % (
+                'assignment' if t == 21 else 'assignment removal', op[1])
         if t == 21:
             if code != 0: return None
             old = self.peers.get(op[1])
